@@ -62,7 +62,7 @@ def gen(w, rng):
         if kind == "O":
             value = rng.choice(["p", "zz"])
         else:
-            value = rng.choice([7, -5, 2.5, {"sel": rng.choice([3, 11])}, {"sel_nd": rng.choice([4, 12])}])
+            value = rng.choice([7, -5, 2.5, {"sel": rng.choice([3, 11])}, {"sel_nd": rng.choice([4, 12])}, {"sel_ma": rng.choice([6, 13])}])
         return {"op": "disk_assign", "path": path, "name": name, "idx": idx, "pos": pos, "value": value,
                 "via": rng.choice(["item", "write"]), "check_other_handle": rng.random() < 0.3}
     form = rng.choice(["getitem", "getitem", "ix", "loc", "iloc", "sel", "isel", "nloc", "read", "read", "read_nc", "read_nc", "ds_read"])
@@ -275,18 +275,26 @@ def x_disk_assign(w, s):
         sel = _guard(lambda: arr.take(index, indexing=indexing))
         if sel[0] == "raise":
             return "unasserted:" + sel[1].__name__
-        const = value.get("sel", value.get("sel_nd"))
+        const = value.get("sel", value.get("sel_nd", value.get("sel_ma")))
         if isinstance(sel[1], w.da.DimArray):
             val = sel[1].copy()
             val.values[...] = const
             val.attrs.clear()
             if "sel_nd" in value:
                 val = np.array(val.values, copy=True)
+            elif "sel_ma" in value:
+                # a masked array: what is stored is its data, on disk as in memory
+                data = np.array(val.values, copy=True)
+                mask = np.zeros(data.shape, dtype=bool)
+                if mask.size:
+                    mask.flat[0] = True
+                val = np.ma.MaskedArray(data, mask=mask)
+                w.count("c20:assign_masked_array")
         else:
             val = const
     else:
         val = value
-    memval = np.array(val.values, copy=True) if isinstance(val, w.da.DimArray) else val
+    memval = np.array(val.values, copy=True) if isinstance(val, w.da.DimArray) else (val.copy() if isinstance(val, np.ma.MaskedArray) else val)
     g = _guard(lambda: arr.put(index, memval, indexing=indexing, inplace=True))
     if g[0] == "raise":
         w.count("c20:assign_unasserted_memory_raises")
@@ -575,8 +583,21 @@ def _gen_multi(w, rng):
                         shape = [len(sp["dims"][d]) for d in vs["dims"]]
                         vs["values"] = V.gen_values(rng, shape, vs["dtype"], cfg["nan_rate"])
                 differing = True
+    indices = None
+    if rng.random() < 0.3:
+        # label indices handed through to every file; the indexed dimension sits in another order in the last file
+        cand = [d for d in base["dims"] if (d != d0 or mode == "stack") and len(base["dims"][d]) >= 2]
+        if cand:
+            d2 = rng.choice(cand)
+            common = [x for x in specs[0]["dims"][d2] if all(x in sp["dims"][d2] for sp in specs)]
+            if common:
+                specs[-1]["dims"][d2] = list(reversed(specs[-1]["dims"][d2]))
+                pick = rng.sample(common, rng.randint(1, min(2, len(common))))
+                indices = {d2: pick[0] if len(pick) == 1 and rng.random() < 0.7 else pick}
     st = {"op": "multi_read", "paths": paths, "specs": specs, "mode": mode, "align": differing or rng.random() < 0.2,
           "sort": rng.random() < 0.3}
+    if indices:
+        st["indices"] = indices
     names = [vs["name"] for vs in base["vars"]]
     r = rng.random()
     st["names"] = None if r < 0.4 else (rng.choice(names) if r < 0.7 else names)
@@ -617,9 +638,13 @@ def x_multi_read(w, s):
         kw["keys"] = list(s["keys"])
     names = s["names"]
     da = w.da
+    ikw = {"indices": dict(s["indices"])} if s.get("indices") else {}
+    if ikw:
+        kw["indices"] = dict(s["indices"])
+        w.count("c20:multi_with_indices")
 
     def expected():
-        singles = [da.read_nc(p) for p in paths]
+        singles = [da.read_nc(p, **ikw) for p in paths]
         if isinstance(names, list):
             singles = [da.Dataset({k: ds[k] for k in names}) for ds in singles]
         elif isinstance(names, str):
